@@ -1,5 +1,5 @@
 """C26 — system interpolation reproduces its endpoints"""
-import itertools
+import itertools, warnings
 from types import SimpleNamespace
 import numpy as np
 from symx.core import *
@@ -207,6 +207,7 @@ def soc_obligations(rec, spec, A, k, xp):
 
 # ------------------------------------------------------------------------------------------------------------
 def case_interp(rec, spec):
+    warnings.filterwarnings("ignore")
     shadow(MODS)
     soc = "nspin" in spec
     A = (soc_arrays_for if soc else arrays_for)(spec)
